@@ -59,7 +59,7 @@ var tsCounted *countedSvc
 
 func registryWithCountedTs() registry.IServiceRegistry {
 	tsCounted = &countedSvc{IInsertServiceV2: plugin.TsSvcs[node.Node]}
-	return registry.NewStaticServiceRegistry(map[string]service.IInsertServiceV2{node.Node: tsCounted},
+	return registry.NewStaticServiceRegistry(map[string]service.IInsertServiceV2{node.Node: tsCounted, node2.Node: plugin.TsSvcs[node2.Node]},
 		plugin.SplSvcs, plugin.MtrSvcs, plugin.TempoSamplesSvcs, plugin.TempoTagsSvcs, plugin.ProfileInsertSvcs)
 }
 
@@ -108,6 +108,7 @@ func runGroup(r *mux.Router, st *Step) StepObs {
 		go func(ch chan int) {
 			req := httptest.NewRequest("POST", "/loki/api/v1/push", bytes.NewReader([]byte(body)))
 			req.Header.Set("Content-Type", "application/json")
+			req.Header.Set("X-CH-DSN", node.Node)
 			w := httptest.NewRecorder()
 			r.ServeHTTP(w, req)
 			ch <- w.Code
